@@ -21,7 +21,7 @@ func init() {
 	vc.Register(&vc.Check{
 		ID:    "C16",
 		Level: "exploration",
-		Rule: "schedules: all executions within the deviation bound (delay bounding, quick 2, thorough 3; coalescing timers firing early count as deviations) of a producer thread driving 8-9 member transitions of two members through the real handlers of a real Serf node while the real pipeline goroutines (snapshot tee and stream, internal-query filter, member coalescer, user coalescer) run, for the four configurations {snapshot on/off} x {coalescing on/off} and two transition scripts; the application's channel is read at the end; non-trivial = at least one non-default choice",
+		Rule: "schedules: all executions within the deviation bound (delay bounding, quick 2, thorough 3; coalescing timers firing early count as deviations) of a producer thread driving 8-9 member transitions of two members through the real handlers of a real Serf node while the real pipeline goroutines (snapshot tee and stream, internal-query filter, member coalescer, user coalescer) run, for the four configurations {snapshot on/off} x {coalescing on/off} and three transition scripts (flapping, graceful leave and rejoin, prune of a failed member); the application's channel is read at the end; non-trivial = at least one non-default choice",
 		Assumptions: []string{
 			"memberlist notifications are serial (one producer thread), as under memberlist's node lock",
 			"the reference per-member sequence is the sequence of status changes the producer caused (one event kind per transition)",
@@ -32,7 +32,7 @@ func init() {
 }
 
 type c16step struct {
-	op   string // join | fail | leave (graceful: intent then memberlist leave) | update | userev
+	op   string // join | fail | leave (graceful: intent then memberlist leave) | prune (leave intent with the prune flag) | update | userev
 	who  string
 	kind string // expected event kind for who ("" = none)
 }
@@ -52,8 +52,14 @@ func c16run(ctx *vc.Ctx) {
 			{"update", "c", "member-update"}, {"update", "c", "member-update"}, {"fail", "c", "member-failed"}, {"fail", "b", "member-failed"},
 		},
 	}
+	// prune: a leave intent with the prune flag for a failed member makes it leave and then erases it
+	// (member-leave, then member-reap; the member is gone afterwards and may join again)
+	scripts["prune"] = []c16step{
+		{"join", "b", "member-join"}, {"join", "c", "member-join"}, {"fail", "b", "member-failed"}, {"prune", "b", "member-leave"},
+		{"join", "b", "member-join"}, {"fail", "c", "member-failed"}, {"prune", "c", "member-leave"},
+	}
 	c16backpressure(ctx, bound)
-	for _, sn := range []string{"flap", "rejoin"} {
+	for _, sn := range []string{"flap", "rejoin", "prune"} {
 		for _, snap := range []bool{false, true} {
 			for _, coal := range []bool{false, true} {
 				c16explore(ctx, sn, scripts[sn], snap, coal, bound)
@@ -110,6 +116,9 @@ func c16explore(ctx *vc.Ctx, sname string, script []c16step, snap, coal bool, bo
 					lt += 5
 					n.Delegate().NotifyMsg(serf.VEncode(serf.VMsgLeave, &serf.VMessageLeave{LTime: serf.LamportTime(lt), Node: st.who}))
 					n.Events().NotifyLeave(n.MLNode(st.who, idx[st.who], nil))
+				case "prune":
+					lt += 5
+					n.Delegate().NotifyMsg(serf.VEncode(serf.VMsgLeave, &serf.VMessageLeave{LTime: serf.LamportTime(lt), Node: st.who, Prune: true}))
 				case "update":
 					lt++
 					n.Events().NotifyUpdate(n.MLNode(st.who, idx[st.who], map[string]string{"v": fmt.Sprint(lt)}))
@@ -118,6 +127,9 @@ func c16explore(ctx *vc.Ctx, sname string, script []c16step, snap, coal bool, bo
 				}
 				if st.kind != "" {
 					ref[st.who] = append(ref[st.who], st.kind)
+				}
+				if st.op == "prune" {
+					ref[st.who] = append(ref[st.who], "member-reap")
 				}
 			}
 		})
@@ -163,7 +175,7 @@ func c16explore(ctx *vc.Ctx, sname string, script []c16step, snap, coal bool, bo
 				return "none", "no event for member", fmt.Sprintf("%s: no event at all for member %s (status changes %v)", name, who, r)
 			}
 			last := g[len(g)-1]
-			want := map[string]string{"member-join": "alive", "member-update": "alive", "member-failed": "failed", "member-leave": "left"}[last]
+			want := map[string]string{"member-join": "alive", "member-update": "alive", "member-failed": "failed", "member-leave": "left", "member-reap": ""}[last]
 			if want != status[who] {
 				return "last", "last event does not match current status", fmt.Sprintf("%s: nothing was dropped, member %s is %s, but the last event the application received for it is %s (received %v, status changes %v)", name, who, status[who], last, g, r)
 			}
